@@ -80,6 +80,12 @@ def gen_expr(rng, types, want, depth):
         c = gen_expr(rng, types, 'bool', depth - 1)
         t = gen_expr(rng, types, want, depth - 1)
         e = gen_expr(rng, types, want, depth - 1) if rng.random() < .6 else {'op': 'lit', 'v': None}
+        if rng.random() < .3:       # a literal branch value (handed to when() / otherwise() as a bare Python value)
+            v = gen_val(rng, want, null_p=0)
+            if rng.random() < .5:
+                t = {'op': 'lit', 'v': sv(v)}
+            else:
+                e = {'op': 'lit', 'v': sv(v)}
         return {'op': 'case', 'c': c, 't': t, 'e': e}
     if numeric:
         op = rng.choice(['add', 'sub', 'mul', 'neg'] + (['div'] if want == 'dbl' else []))
@@ -144,10 +150,17 @@ def to_column(ast, names, cache=None):
     if op == 'coalesce':
         return F.coalesce(sub('a'), sub('b'))
     if op == 'case':
-        w = F.when(sub('c'), sub('t'))
+        def val(k):
+            # "value: a literal value, or a Column expression": a literal branch is handed over as the bare Python value
+            # (int, float, bool, str) half of the time, as lit(value) otherwise
+            node = ast[k]
+            if node['op'] == 'lit' and node['v'] is not None and len(repr(ast)) % 2 == 0:
+                return sv_back(node['v'])
+            return sub(k)
+        w = F.when(sub('c'), val('t'))
         if ast['e'] == {'op': 'lit', 'v': None}:
             return w
-        return w.otherwise(sub('e'))
+        return w.otherwise(val('e'))
     a, b = sub('a'), sub('b')
     return {'add': lambda: a + b, 'sub': lambda: a - b, 'mul': lambda: a * b, 'div': lambda: a / b,
             'eq': lambda: a == b, 'ne': lambda: a != b, 'lt': lambda: a < b, 'le': lambda: a <= b,
